@@ -350,3 +350,45 @@ def inject_derived_name_trap(rec, rng, forms=("is_value_defined_{}",)):
         used.add(n)
         out.append(n)
     return out
+
+
+def _rename_fluent_refs(x, mapping):
+    if isinstance(x, list):
+        if len(x) >= 2 and x[0] == "f" and isinstance(x[1], str) and x[1] in mapping:
+            x[1] = mapping[x[1]]
+        for y in x:
+            _rename_fluent_refs(y, mapping)
+    elif isinstance(x, dict):
+        for k, y in x.items():
+            if k == "costs" and isinstance(y, dict):
+                continue
+            _rename_fluent_refs(y, mapping)
+
+
+def inject_negation_name_trap(rec, rng):
+    """Rename three Boolean fluents to  A, not_A, A_0  and add an action whose precondition negates A and A_0, so that a
+    compiler that derives `not_<f>` names for new fluents has to keep the two new names apart (`not_A` is taken, the
+    next candidate `not_A_0` is also the first candidate for A_0). Returns True when the trap was planted."""
+    bools = [f for f in rec["fluents"] if f["type"] == "bool"]
+    if len(bools) < 3:
+        return False
+    a, b, c = rng.sample(bools, 3)
+    used = {n for n, _ in rec["types"]} | {n for n, _ in rec["objects"]} | {f["name"] for f in rec["fluents"]} | {x["name"] for x in rec["actions"]}
+    base = a["name"]
+    new_b, new_c = "not_" + base, base + "_0"
+    if (new_b in used and new_b != b["name"]) or (new_c in used and new_c != c["name"]) or "not_" + new_c in used:
+        return False
+    mapping = {b["name"]: new_b, c["name"]: new_c}
+    _rename_fluent_refs(rec, mapping)
+    b["name"], c["name"] = new_b, new_c
+    params, pre = [], []
+    for f in (a, c):
+        ps = [[f"z{len(params) + j}", pt] for j, (_, pt) in enumerate(f["sig"])]
+        params += ps
+        pre.append(["not", ["f", f["name"]] + [["p", pn] for pn, _ in ps]])
+    fe = ["f", a["name"]] + [["p", pn] for pn, _ in params[: len(a["sig"])]]
+    name = "trap_neg"
+    while name in used:
+        name += "_"
+    rec["actions"].append({"name": name, "params": params, "pre": pre, "effects": [{"kind": "assign", "fluent": fe, "value": ["b", True], "cond": None, "forall": []}]})
+    return True
